@@ -209,7 +209,18 @@ RULE = ('CELLS: every crystal family from its Box constructor (generic parameter
         'k*(1/k) != 1: 49, 98, 103, 107, ... below 1000) and their multiples next to small indices in every zero pattern, '
         'random indices to 10^4; arrays with no index set in them; all_indices at 8, 10, 12, 16, 20, the default, reduce as '
         '1 / numpy.True_ / 0; numerals of 8-15 digits; family-shaped parameter sets with coincidences in the slots no '
-        'predicate compares (b == c, beta == gamma: correspondence only, outside the quantifier); distinct = distinct canonical '
+        'predicate compares (b == c, beta == gamma: correspondence only, outside the quantifier). ROUND 5 (dtype x magnitude, '
+        'order, larger counts): plane indices held in an int32 / int16 / int8 / uint array whose product or lcm does not fit '
+        'that dtype (int32: three indices in 1291..2^17, two in 46341..2^26, values around the square / cube root of the '
+        'limit, powers of two multiplying to 2^31 / 2^32, every zero pattern and sign) on every cell, both entry points and '
+        'through the model; four-index sets in narrow dtypes whose first three indices sum to +-2^bits (wraps to 0 in the '
+        'dtype: must be refused); arrays of planes of mixed zero patterns with each of the 7 patterns FIRST in turn, ordered '
+        'pairs of patterns, neighbouring rows that are equal / negated / sign-flipped / multiples / permutations of each other, '
+        'held as list / int64 / int32 / float64 / int8 / int16, result dtype floating; one call with 100001-131073 planes per '
+        'run on a cell with a non-symmetric reciprocal matrix (262145 and 300001 when thorough); the vectorised functions at '
+        'one of 262145 / 300001 / 500001 / 524289 / 1000001 and at 1048577 rows in every run with entries to 2^40 (2^31 - 1 in '
+        'int32); all_indices at 53, one of 37 / 41 / 43 / 47 and one bound in 21..36 per run (59 ... 101 when thorough) with '
+        'a vectorised oracle (coprime rows, every direction once, lexicographic order); distinct = distinct canonical '
         'driver line; non-trivial = not the zero index vector / not an error case')
 ASSUMPTIONS = [
     'the final division by numpy.linalg.norm is a positive scalar (the model returns the unnormalised exact normal; '
@@ -3782,7 +3793,9 @@ MANIFEST = {
             'functional model; tied to numpy by running the same histories on real int/float arrays and views); a long array of '
             'planes / four-index sets evaluated in blocks is the array evaluated whole, wherever it is cut; both in-plane vectors '
             'satisfy the zone law exactly (the integer quotients lose nothing); the four-index form of a plane with h, k >= 0, '
-            'h+k > 0 has a negative third index (it cannot stay in an unsigned dtype). The model is tied to the code by an exhaustive differential run (all index triples to the bound, '
+            'h+k > 0 has a negative third index (it cannot stay in an unsigned dtype); the first row of an array of planes gets its '
+            'own result and decides nothing about the others, the same planes in any order give the same normals permuted; every '
+            'row of all_indices(m, reduce) is coprime for EVERY bound m. The model is tied to the code by an exhaustive differential run (all index triples to the bound, '
             'cells of every family in four orientations with non-zero origins, one model object and one real object taken '
             'through the same setter histories, strings, boundary parameter sets).',
     'note': 'Trusted: Lean kernel + propext/Classical.choice/Quot.sound; the table translator (harness/props/c16.py); numpy '
